@@ -377,7 +377,13 @@ impl InnerNodeManage {
                 Self::client_invalid_instance(naming_actor, node);
             }
         }
+        let old_range = self.current_range.clone();
         self.update_process_range();
+        if old_range != self.current_range {
+            // a peer's liveness changed what this node owns: the naming actor decides take-over (heartbeat supervision,
+            // at_process_range) by its own copy of the range, as after a membership change in update_nodes
+            self.refresh_process_range();
+        }
     }
 
     fn client_invalid_instance(
